@@ -166,7 +166,12 @@ fn _csc_symv_safe<T: FloatT>(A: &CscMatrix<T>, y: &mut [T], x: &[T], a: T, b: T)
 // direct linear solves.
 #[allow(non_snake_case)]
 fn _csc_symv_unsafe<T: FloatT>(A: &CscMatrix<T>, y: &mut [T], x: &[T], a: T, b: T) {
-    y.scale(b);
+    // as in gemv: when b is zero, y is not read (it may hold NaN/Inf)
+    if b == T::zero() {
+        y.fill(T::zero());
+    } else {
+        y.scale(b);
+    }
 
     assert!(x.len() == A.n);
     assert!(y.len() == A.n);
